@@ -117,27 +117,4 @@ func main() {
 	fmt.Println("  SplitFile(B, span 1):", api.SplitFile(b, outDir, 1, conf()))
 	show(filepath.Join(outDir, "b_1.pdf"))
 
-	fmt.Println("S2  SplitFile: named destinations of the pages of later parts (not checked by C33; seen while triaging): extracting the first span prunes the SOURCE name tree")
-	spec := pdfgen.DocSpec{Seed: 5, Pages: 3, Dests: 9, NameTreeLeafMax: 2}
-	bt := pdfgen.Build(spec)
-	perPage := map[int]int{}
-	for _, dst := range bt.Truth.Dests {
-		perPage[dst.Page]++
-	}
-	os.WriteFile(b, bt.Bytes, 0o644)
-	os.RemoveAll(outDir)
-	os.MkdirAll(outDir, 0o755)
-	fmt.Println("  SplitFile(3 pages, 9 named destinations, span 1):", api.SplitFile(b, outDir, 1, conf()))
-	for i := 1; i <= 3; i++ {
-		ctx, err := api.ReadContextFile(filepath.Join(outDir, fmt.Sprintf("b_%d.pdf", i)))
-		n := 0
-		if err == nil {
-			err = ctx.LocateNameTree("Dests", false)
-		}
-		if err == nil && ctx.Names["Dests"] != nil {
-			keys, _ := ctx.Names["Dests"].KeyList()
-			n = len(keys)
-		}
-		fmt.Printf("  part %d: %d named destinations, the page had %d (read error: %v)\n", i, n, perPage[i-1], err)
-	}
 }
